@@ -401,7 +401,11 @@ func genScenario(e *env, r *rng, id string, withFaultyPre bool) scenario {
 			}
 			if r.chance(1, 2) {
 				c := e.skill[rel]
-				s.Pre = append(s.Pre, preOp{Op: "write", Path: filepath.Dir(skill+"/"+rel) + fmt.Sprintf("/.tmp-%d", r.intn(1e6)), Data: c[:r.intn(len(c)+1)], Mode: pick(r, []uint32{0o600, 0o644})})
+				name := fmt.Sprintf("/.tmp-%d", r.intn(1e6))
+				if r.chance(1, 3) {
+					name = "/.tmp-" + filepath.Base(rel) // what a killed run of an installer with predictable temp names leaves
+				}
+				s.Pre = append(s.Pre, preOp{Op: "write", Path: filepath.Dir(skill+"/"+rel) + name, Data: c[:r.intn(len(c)+1)], Mode: pick(r, []uint32{0o600, 0o644})})
 			}
 		}
 	case 8:
